@@ -168,7 +168,7 @@ func vSymRecovery(e *vEnv, h uint32) *vRecovery {
 		p := vSymPayload(tag, t, h)
 		// nobody can forge the receiver's own payloads (DESIGN §4); genuine own payloads
 		// coming back are the re-delivery case of C11
-		vAssume(int(p.vidx) != e.my)
+		vAssume(int(p.vidx) != e.my || e.watchFlag)
 		if t == PrepareRequestType {
 			p.txs = vSymTxs(tag, vParam("mntx"))
 		}
@@ -241,7 +241,8 @@ func H_step() {
 			msg.rec = vSymRecovery(e, msg.height)
 		}
 		// own payloads are not fed back and cannot be forged by others (DESIGN §4)
-		vAssume(int(msg.vidx) != d.MyIndex)
+		// (a node restarted as watch-only under its old key does see its earlier payloads again)
+		vAssume(int(msg.vidx) != d.MyIndex || e.watchFlag)
 		switch cls {
 		case 1: // validator index outside the current list
 			vAssume(int(msg.vidx) >= len(d.Validators))
@@ -303,7 +304,7 @@ func H_step() {
 
 func vpStepObligations(e *vEnv, pre *vSnap, msg *vPayload) {
 	d := e.d
-	if e.want("C03") && d.MyIndex >= 0 {
+	if e.want("C03") && d.MyIndex >= 0 && !d.Context.WatchOnly() {
 		// O3 commit lock
 		if e.preOwnCommit != nil || e.preOwnPreCommit != nil {
 			vCover("C03.O3.committed")
